@@ -530,7 +530,7 @@ macro_rules! relation_to_query_translator_trait_constructor {
                         expr::function::Function::InList => {
                             if let ast::Expr::Tuple(t) = arguments[1].clone() {
                                 ast::Expr::InList {
-                                    expr: Box::new(arguments[0].clone()),
+                                    expr: Box::new(ast::Expr::Nested(Box::new(arguments[0].clone()))),
                                     list: t.clone(),
                                     negated: false,
                                 }
@@ -737,13 +737,13 @@ macro_rules! relation_to_query_translator_trait_constructor {
                 }
             }
             fn is_null(&self, expr: ast::Expr) -> ast::Expr {
-                ast::Expr::IsNull(Box::new(expr))
+                ast::Expr::IsNull(Box::new(ast::Expr::Nested(Box::new(expr))))
             }
             fn ilike(&self, exprs: Vec<ast::Expr>) -> ast::Expr {
                 assert!(exprs.len() == 2);
                 ast::Expr::ILike {
                     negated: false,
-                    expr: Box::new(exprs[0].clone()),
+                    expr: Box::new(ast::Expr::Nested(Box::new(exprs[0].clone()))),
                     pattern: Box::new(exprs[1].clone()),
                     escape_char: None,
                 }
@@ -752,7 +752,7 @@ macro_rules! relation_to_query_translator_trait_constructor {
                 assert!(exprs.len() == 2);
                 ast::Expr::Like {
                     negated: false,
-                    expr: Box::new(exprs[0].clone()),
+                    expr: Box::new(ast::Expr::Nested(Box::new(exprs[0].clone()))),
                     pattern: Box::new(exprs[1].clone()),
                     escape_char: None,
                 }
